@@ -10,18 +10,25 @@
    Binary-level statements hold for every offset [off]: 5 for BF3 (the signature), the
    length of signature + authentication blocks for BEC2.
 
-   Three groups, of different strength (DESIGN.md section 5, C04):
-   1. truncation / extension / damage confined to a field the reader recomputes:
-      unconditional theorems;
-   2. byte replacement and wrong session key: C04_forgery_reduction_partial - what is NOT
-      proved (and cannot be, for an abstract cipher) is unforgeability of the CBC-MAC;
-   3. the concrete sweep on implementation and model is in tools/props/C04.py. *)
+   The four kinds of damage of the property:
+   - bytes appended:            C04_suffix, C04_suffix_authentic, C04_text_suffix(_removed)  - unconditional;
+   - file cut short:            C04_prefix (binary), C04_text_prefix (text, every character)   - unconditional;
+   - any single byte replaced:  C04_byte_replacement (binary, every position, every value),
+                                C04_text_byte_replacement (signature included)               - unconditional:
+                                with an invertible block function one replaced byte always changes
+                                a CBC-MAC tag (C04_mac_byte_sensitive), and the directory size,
+                                the entry length bytes and the sentinel are checked structurally;
+   - a different session key:   C04_forgery_reduction_partial - what is NOT proved (and cannot be,
+                                for an abstract cipher) is that MACs under different keys differ;
+                                the theorem reduces acceptance with different content to a MAC
+                                forgery; it also covers arbitrary multi-byte replacement.
+   The concrete sweep on implementation and model is in tools/props/C04.py. *)
 From Coq Require Import List Bool NArith ZArith.
 From Coq Require Import Init.Byte.
 From Bec2 Require Import Base.Result Base.Bytes Base.Reader Gen.Consts Model.Cbc Model.Bf3 Model.Bf3Eq Model.Damage
   Proofs.CbcProofs Proofs.Bf3Proofs Proofs.Bf3TextProofs Proofs.DamageProofs Proofs.DamageStructProofs
   Proofs.DamageReductionProofs Proofs.DamageTextProofs Proofs.DamageCbcProofs Proofs.DamageByteProofs
-  Proofs.DamageTextFinalProofs Proofs.DamageAdapterProofs.
+  Proofs.DamageTextFinalProofs Proofs.DamageReplaceProofs Proofs.DamageAdapterProofs.
 Import ListNotations.
 Open Scope N_scope.
 
@@ -187,11 +194,27 @@ Section C04.
     exists e,
     from_binary dec mac (mkR (file_of (dir_of d1 ((u ++ y :: v) ++ emac) d2 [x00]) (p1 ++ raw ++ p2)) off) true k = Err e.
   Proof. intros. eapply (ad_entry_body_byte E D E_len DE); eassumption. Qed.
-  (* together with C04_macfield (entry MAC bytes) and C04_sentinel: of all single-byte
-     replacements only those of the 4-byte directory size and of the entry length bytes are
-     left to the reduction below. *)
 
-  (* ---- 2. byte replacement, wrong session key: reduction to a MAC forgery ---------------- *)
+  (* ---- 1f. ANY single byte of an authentic binary replaced by any other value: rejected ----- *)
+  (* every position (4-byte directory size, entry length bytes, entry bodies, entry MACs,
+     sentinel, payloads), every replacement value - in particular each single-bit flip, 0x00,
+     0xFF, +1; the error is a Python exception, never the model's fuel error *)
+  Theorem C04_byte_replacement : forall cs off k b u x v y,
+    Forall wf_comp cs -> to_binary enc mac cs off k = Ok b -> b = u ++ x :: v -> y <> x ->
+    exists e, from_binary dec mac (mkR (u ++ y :: v) off) true k = Err e /\ e <> EFuel.
+  Proof. intros. eapply (ad_byte_replacement E D E_len DE); eassumption. Qed.
+
+  (* text level: a text whose hex part decodes to the authentic binary (signature included) with
+     one byte replaced *)
+  Theorem C04_text_byte_replacement : forall f k b t' cm u x v y,
+    Forall wf_comp (f_comps f) -> to_binary enc mac (f_comps f) (blen BF3_FILE_SIG) k = Ok b ->
+    BF3_FILE_SIG ++ b = u ++ x :: v -> y <> x ->
+    parse_bf3_file t' = Ok (u ++ y :: v, cm) ->
+    exists e, read_file dec mac t' true k = Err e.
+  Proof. intros. eapply (ad_text_byte_replacement E D E_len DE); eassumption. Qed.
+
+  (* ---- 2. wrong session key (and arbitrary replacement of several bytes): reduction to a MAC
+     forgery ---------------------------------------------------------------------------------- *)
   (* PARTIAL: the CBC-MAC is not (and cannot be) proved unforgeable here.  What is proved, for
      every cipher as above: if a binary b' of the authentic length is accepted under a key k'
      with MAC checking on and the content returned differs from the original, then
@@ -241,6 +264,8 @@ Print Assumptions C04_sentinel.
 Print Assumptions C04_mac_byte_sensitive.
 Print Assumptions C04_payload_byte.
 Print Assumptions C04_entry_byte.
+Print Assumptions C04_byte_replacement.
+Print Assumptions C04_text_byte_replacement.
 Print Assumptions C04_forgery_reduction_partial.
 Print Assumptions C04_forgery_reduction_general_partial.
 Print Assumptions C04_emitted_defined.
@@ -289,6 +314,28 @@ Example C04_text_nonvacuous :
   end = true.
 Proof. vm_compute. reflexivity. Qed.
 Print Assumptions C04_text_nonvacuous.
+
+(* every byte position of the example file x {bit 0 flipped, bit 7 flipped, 0x00, 0xFF, +1}:
+   rejected (the toy block function is invertible, so C04_byte_replacement applies) *)
+Fixpoint upd_nth (l : bytes) (i : nat) (y : byte) : bytes :=
+  match l, i with
+  | [], _ => []
+  | _ :: t, O => y :: t
+  | h :: t, S j => h :: upd_nth t j y
+  end.
+Example C04_byte_nonvacuous :
+  match to_binary toy_e toy_m (f_comps c4_file) 5 (zeros 16) with
+  | Ok b =>
+    forallb (fun i =>
+      let x := nth i b x00 in
+      forallb (fun y => Byte.eqb y x ||
+                        negb (is_ok (from_binary toy_d toy_m (mkR (upd_nth b i y) 5) true (zeros 16))))
+              [n2b (N.lxor (b2n x) 1); n2b (N.lxor (b2n x) 128); x00; xff; n2b (b2n x + 1)])
+      (seq 0 (length b))
+  | Err _ => false
+  end = true.
+Proof. vm_compute. reflexivity. Qed.
+Print Assumptions C04_byte_nonvacuous.
 
 (* the hypotheses of the reduction are satisfiable: another authentic file of the same length
    is accepted with different content (whoever made it knew the key: its MACs are "forgeries"
